@@ -3,5 +3,5 @@
 id=$1; n=${2:-1}
 d=/tmp/seed-$id; [ "$n" != 1 ] && d=/tmp/seed-$id-$n
 rm -rf $d; mkdir -p $d
-rsync -a --exclude .git --exclude 'zz_verif_contracts.go' --exclude logs --exclude storage0 --exclude '*.ini' /repo/ $d/
+rsync -a --exclude .git --exclude 'zz_verif_*.go' --exclude logs --exclude storage0 --exclude '*.ini' /repo/ $d/
 (cd $d && git init -q && git add -A >/dev/null 2>&1 && git -c user.name=base -c user.email=base@example.com commit -q -m base && echo "scratch $d ready")
